@@ -141,7 +141,7 @@ fn get_interned_separator(sep: &str) -> String {
 #[inline(always)]
 fn ascii_trim(s: &str) -> Option<&str> {
     if s.is_ascii() {
-        Some(s.trim_matches(|c: char| c.is_ascii_whitespace()))
+        Some(s.trim())
     } else {
         None
     }
